@@ -1,1 +1,331 @@
-//! oracle for aria — to be written from the specification
+//! ARIA (RFC 5794), written from the RFC's description: byte strings x0..x15, explicit substitution layers SL1/SL2,
+//! the diffusion layer A as its sixteen XOR equations (RFC 5794 2.4.3), byte-wise 128-bit rotations.
+//!
+//! S-boxes are *generated* from the algebraic definition of the ARIA specification (RFC 5794 2.4.2 prints the
+//! resulting tables): over GF(2^8) = GF(2)[x]/(x^8+x^4+x^3+x+1)
+//!   SB1(x) = A * x^-1  ^ 0x63      (the AES S-box; x^-1 = x^254, 0^-1 = 0)
+//!   SB2(x) = B * x^247 ^ 0xe2
+//!   SB3 = SB1^-1, SB4 = SB2^-1
+//! with the 8x8 bit matrices A, B below (row i gives output bit i as the parity of `row & y`, bit 0 = LSB).
+//! The round-function constants C1..C3 (fractional part of 1/pi) are data of the RFC.
+//!
+//! Leaves exposed as generic parameters (u128 <-> big-endian byte string, matching aria/src/utils.rs):
+//!   fo(x) = A(SL1(x)),  fe(x) = A(SL2(x)),  sl2(x) = SL2(x),  a(x) = A(x).
+
+pub type B16 = [u8; 16];
+
+const fn gmul(mut a: u8, mut b: u8) -> u8 {
+    let mut r = 0u8;
+    while b != 0 {
+        if b & 1 != 0 {
+            r ^= a;
+        }
+        let hi = a & 0x80 != 0;
+        a <<= 1;
+        if hi {
+            a ^= 0x1b;
+        }
+        b >>= 1;
+    }
+    r
+}
+const fn gpow(x: u8, mut e: u32) -> u8 {
+    let mut r = 1u8;
+    let mut s = x;
+    while e != 0 {
+        if e & 1 != 0 {
+            r = gmul(r, s);
+        }
+        s = gmul(s, s);
+        e >>= 1;
+    }
+    r
+}
+const fn matvec(rows: &[u8; 8], y: u8) -> u8 {
+    let mut o = 0u8;
+    let mut i = 0;
+    while i < 8 {
+        if (rows[i] & y).count_ones() & 1 == 1 {
+            o |= 1 << i;
+        }
+        i += 1;
+    }
+    o
+}
+/// A: b_i = y_i ^ y_{i+4} ^ y_{i+5} ^ y_{i+6} ^ y_{i+7} (indices mod 8) -- the AES affine matrix.
+const MAT_A: [u8; 8] = [0xf1, 0xe3, 0xc7, 0x8f, 0x1f, 0x3e, 0x7c, 0xf8];
+/// B of the ARIA specification, rows (LSB-first columns) 01011110 00111101 11010111 10011101 00101100 10000001
+/// 01011101 11010011.
+const MAT_B: [u8; 8] = [0x7a, 0xbc, 0xeb, 0xb9, 0x34, 0x81, 0xba, 0xcb];
+
+const fn gen_sbox(rows: &[u8; 8], exp: u32, c: u8) -> [u8; 256] {
+    let mut t = [0u8; 256];
+    let mut x = 0usize;
+    while x < 256 {
+        t[x] = matvec(rows, gpow(x as u8, exp)) ^ c;
+        x += 1;
+    }
+    t
+}
+const fn invert(t: &[u8; 256]) -> [u8; 256] {
+    let mut o = [0u8; 256];
+    let mut x = 0usize;
+    while x < 256 {
+        o[t[x] as usize] = x as u8;
+        x += 1;
+    }
+    o
+}
+
+pub static SB1: [u8; 256] = gen_sbox(&MAT_A, 254, 0x63);
+pub static SB2: [u8; 256] = gen_sbox(&MAT_B, 247, 0xe2);
+pub static SB3: [u8; 256] = invert(&gen_sbox(&MAT_A, 254, 0x63));
+pub static SB4: [u8; 256] = invert(&gen_sbox(&MAT_B, 247, 0xe2));
+
+pub const C1: B16 = [0x51, 0x7c, 0xc1, 0xb7, 0x27, 0x22, 0x0a, 0x94, 0xfe, 0x13, 0xab, 0xe8, 0xfa, 0x9a, 0x6e, 0xe0];
+pub const C2: B16 = [0x6d, 0xb1, 0x4a, 0xcc, 0x9e, 0x21, 0xc8, 0x20, 0xff, 0x28, 0xb1, 0xd5, 0xef, 0x5d, 0xe2, 0xb0];
+pub const C3: B16 = [0xdb, 0x92, 0x37, 0x1d, 0x21, 0x26, 0xe9, 0x70, 0x03, 0x24, 0x97, 0x75, 0x04, 0xe8, 0xc9, 0x0e];
+
+fn sbox(n: usize, v: u8) -> u8 {
+    match n {
+        0 => SB1[v as usize],
+        1 => SB2[v as usize],
+        2 => SB3[v as usize],
+        _ => SB4[v as usize],
+    }
+}
+
+/// Substitution layer type 1: SB1, SB2, SB3, SB4 repeated four times.
+pub fn sl1_bytes(x: &B16) -> B16 {
+    let mut y = [0u8; 16];
+    let mut i = 0;
+    while i < 16 {
+        y[i] = sbox(i % 4, x[i]);
+        i += 1;
+    }
+    y
+}
+/// Substitution layer type 2: SB3, SB4, SB1, SB2 repeated four times.
+pub fn sl2_bytes(x: &B16) -> B16 {
+    let mut y = [0u8; 16];
+    let mut i = 0;
+    while i < 16 {
+        y[i] = sbox((i + 2) % 4, x[i]);
+        i += 1;
+    }
+    y
+}
+/// Diffusion layer A (RFC 5794 2.4.3).
+pub fn a_bytes(x: &B16) -> B16 {
+    [
+        x[3] ^ x[4] ^ x[6] ^ x[8] ^ x[9] ^ x[13] ^ x[14],
+        x[2] ^ x[5] ^ x[7] ^ x[8] ^ x[9] ^ x[12] ^ x[15],
+        x[1] ^ x[4] ^ x[6] ^ x[10] ^ x[11] ^ x[12] ^ x[15],
+        x[0] ^ x[5] ^ x[7] ^ x[10] ^ x[11] ^ x[13] ^ x[14],
+        x[0] ^ x[2] ^ x[5] ^ x[8] ^ x[11] ^ x[14] ^ x[15],
+        x[1] ^ x[3] ^ x[4] ^ x[9] ^ x[10] ^ x[14] ^ x[15],
+        x[0] ^ x[2] ^ x[7] ^ x[9] ^ x[10] ^ x[12] ^ x[13],
+        x[1] ^ x[3] ^ x[6] ^ x[8] ^ x[11] ^ x[12] ^ x[13],
+        x[0] ^ x[1] ^ x[4] ^ x[7] ^ x[10] ^ x[13] ^ x[15],
+        x[0] ^ x[1] ^ x[5] ^ x[6] ^ x[11] ^ x[12] ^ x[14],
+        x[2] ^ x[3] ^ x[5] ^ x[6] ^ x[8] ^ x[13] ^ x[15],
+        x[2] ^ x[3] ^ x[4] ^ x[7] ^ x[9] ^ x[12] ^ x[14],
+        x[1] ^ x[2] ^ x[6] ^ x[7] ^ x[9] ^ x[11] ^ x[12],
+        x[0] ^ x[3] ^ x[6] ^ x[7] ^ x[8] ^ x[10] ^ x[13],
+        x[0] ^ x[3] ^ x[4] ^ x[5] ^ x[9] ^ x[11] ^ x[14],
+        x[1] ^ x[2] ^ x[4] ^ x[5] ^ x[8] ^ x[10] ^ x[15],
+    ]
+}
+
+// ---- the leaves in the shape of the repository's functions (u128 = big-endian byte string) ----
+pub fn sl1(x: u128) -> u128 {
+    u128::from_be_bytes(sl1_bytes(&x.to_be_bytes()))
+}
+pub fn sl2(x: u128) -> u128 {
+    u128::from_be_bytes(sl2_bytes(&x.to_be_bytes()))
+}
+pub fn a(x: u128) -> u128 {
+    u128::from_be_bytes(a_bytes(&x.to_be_bytes()))
+}
+/// FO without the key addition: A(SL1(x))
+pub fn fo(x: u128) -> u128 {
+    a(sl1(x))
+}
+/// FE without the key addition: A(SL2(x))
+pub fn fe(x: u128) -> u128 {
+    a(sl2(x))
+}
+
+pub fn xor16(p: &B16, q: &B16) -> B16 {
+    let mut o = [0u8; 16];
+    let mut i = 0;
+    while i < 16 {
+        o[i] = p[i] ^ q[i];
+        i += 1;
+    }
+    o
+}
+/// 128-bit right rotation (x >>> n) of a big-endian byte string, 0 <= n < 128.
+pub fn ror(x: &B16, n: usize) -> B16 {
+    let q = n / 8;
+    let r = (n % 8) as u32;
+    let mut o = [0u8; 16];
+    let mut i = 0;
+    while i < 16 {
+        let hi = x[(i + 16 - q) % 16];
+        let lo = x[(i + 15 - q) % 16];
+        o[i] = if r == 0 { hi } else { (hi >> r) | (lo << (8 - r)) };
+        i += 1;
+    }
+    o
+}
+/// 128-bit left rotation (x <<< n), 0 < n < 128.
+pub fn rol(x: &B16, n: usize) -> B16 {
+    ror(x, 128 - n)
+}
+
+fn ap<F: Fn(u128) -> u128>(f: &F, x: &B16) -> B16 {
+    f(u128::from_be_bytes(*x)).to_be_bytes()
+}
+
+/// Encryption round keys ek1..ek17 (index 0..16; only the first nr+1 are used), RFC 5794 2.2.
+/// nr = 12 / 14 / 16 for 128 / 192 / 256-bit keys; kr is the right key half padded with zeros.
+pub fn enc_keys_with<FO: Fn(u128) -> u128, FE: Fn(u128) -> u128>(
+    kl: &B16,
+    kr: &B16,
+    nr: usize,
+    fo: &FO,
+    fe: &FE,
+) -> [B16; 17] {
+    let (ck1, ck2, ck3) = match nr {
+        12 => (C1, C2, C3),
+        14 => (C2, C3, C1),
+        _ => (C3, C1, C2),
+    };
+    let w0 = *kl;
+    let w1 = xor16(&ap(fo, &xor16(&w0, &ck1)), kr);
+    let w2 = xor16(&ap(fe, &xor16(&w1, &ck2)), &w0);
+    let w3 = xor16(&ap(fo, &xor16(&w2, &ck3)), &w1);
+    let w = [w0, w1, w2, w3];
+    let mut ek = [[0u8; 16]; 17];
+    let mut i = 0;
+    while i < 17 {
+        // ek_{i+1} = W_{i mod 4} ^ rot(W_{(i+1) mod 4}),  rot = >>>19, >>>31, <<<61, <<<31, <<<19 for groups of four
+        let x = &w[i % 4];
+        let y = &w[(i + 1) % 4];
+        let ry = match i / 4 {
+            0 => ror(y, 19),
+            1 => ror(y, 31),
+            2 => rol(y, 61),
+            3 => rol(y, 31),
+            _ => rol(y, 19),
+        };
+        ek[i] = xor16(x, &ry);
+        i += 1;
+    }
+    ek
+}
+
+/// dk1 = ek_{nr+1}, dk_i = A(ek_{nr+2-i}) (2 <= i <= nr), dk_{nr+1} = ek1.
+pub fn dec_keys_with<A: Fn(u128) -> u128>(ek: &[B16; 17], nr: usize, a: &A) -> [B16; 17] {
+    let mut dk = [[0u8; 16]; 17];
+    dk[0] = ek[nr];
+    let mut i = 1;
+    while i < nr {
+        dk[i] = ap(a, &ek[nr - i]);
+        i += 1;
+    }
+    dk[nr] = ek[0];
+    dk
+}
+
+/// nr-1 rounds FO, FE, FO, ..., FO (each preceded by the key addition), then SL2(P ^ k_nr) ^ k_{nr+1}.
+pub fn crypt_with<FO: Fn(u128) -> u128, FE: Fn(u128) -> u128, S2: Fn(u128) -> u128>(
+    rk: &[B16; 17],
+    nr: usize,
+    block: &B16,
+    fo: &FO,
+    fe: &FE,
+    s2: &S2,
+) -> B16 {
+    let mut p = *block;
+    let mut i = 0;
+    while i < nr - 1 {
+        let t = xor16(&p, &rk[i]);
+        p = if i % 2 == 0 { ap(fo, &t) } else { ap(fe, &t) };
+        i += 1;
+    }
+    xor16(&ap(s2, &xor16(&p, &rk[nr - 1])), &rk[nr])
+}
+
+/// Splits a 16/24/32-byte key into (KL, KR padded, number of rounds).
+pub fn split_key(key: &[u8]) -> (B16, B16, usize) {
+    let mut kl = [0u8; 16];
+    let mut kr = [0u8; 16];
+    let mut i = 0;
+    while i < 16 {
+        kl[i] = key[i];
+        i += 1;
+    }
+    while i < key.len() && i < 32 {
+        kr[i - 16] = key[i];
+        i += 1;
+    }
+    let nr = match key.len() {
+        16 => 12,
+        24 => 14,
+        _ => 16,
+    };
+    (kl, kr, nr)
+}
+
+/// Encryption with every leaf abstract (key: 16, 24 or 32 bytes).
+pub fn encrypt_with<FO: Fn(u128) -> u128, FE: Fn(u128) -> u128, S2: Fn(u128) -> u128>(
+    key: &[u8],
+    block: &B16,
+    fo: &FO,
+    fe: &FE,
+    s2: &S2,
+) -> B16 {
+    let (kl, kr, nr) = split_key(key);
+    let ek = enc_keys_with(&kl, &kr, nr, fo, fe);
+    crypt_with(&ek, nr, block, fo, fe, s2)
+}
+pub fn decrypt_with<FO: Fn(u128) -> u128, FE: Fn(u128) -> u128, S2: Fn(u128) -> u128, A: Fn(u128) -> u128>(
+    key: &[u8],
+    block: &B16,
+    fo: &FO,
+    fe: &FE,
+    s2: &S2,
+    a: &A,
+) -> B16 {
+    let (kl, kr, nr) = split_key(key);
+    let ek = enc_keys_with(&kl, &kr, nr, fo, fe);
+    let dk = dec_keys_with(&ek, nr, a);
+    crypt_with(&dk, nr, block, fo, fe, s2)
+}
+
+pub fn encrypt(key: &[u8], block: &B16) -> B16 {
+    encrypt_with(key, block, &fo, &fe, &sl2)
+}
+pub fn decrypt(key: &[u8], block: &B16) -> B16 {
+    decrypt_with(key, block, &fo, &fe, &sl2, &a)
+}
+pub fn encrypt128(key: &[u8; 16], block: &B16) -> B16 {
+    encrypt(key, block)
+}
+pub fn decrypt128(key: &[u8; 16], block: &B16) -> B16 {
+    decrypt(key, block)
+}
+pub fn encrypt192(key: &[u8; 24], block: &B16) -> B16 {
+    encrypt(key, block)
+}
+pub fn decrypt192(key: &[u8; 24], block: &B16) -> B16 {
+    decrypt(key, block)
+}
+pub fn encrypt256(key: &[u8; 32], block: &B16) -> B16 {
+    encrypt(key, block)
+}
+pub fn decrypt256(key: &[u8; 32], block: &B16) -> B16 {
+    decrypt(key, block)
+}
